@@ -49,7 +49,8 @@
 (*           fresh = 1 iff n's channel was created during this dispatch    *)
 (*   Comp{r,n,kind}            first completion of r (reply, error,        *)
 (*           timeout, fault, failfast), logged before the stack unwinds    *)
-(*   CloseSeen{n}              Close() called on n's channel               *)
+(*   CloseSeen{n[,x]}          Close() called on n's channel (x = 1: the   *)
+(*           call closed the channel and then raised; diagnostic only)     *)
 (*   End{hasL,L,neg}           end of a step; L = <<n, ld, rm, dn>> is the *)
 (*           optional internal projection: ld = load attributed to the     *)
 (*           node (Idle and Penalty removed); neg = number of              *)
